@@ -343,6 +343,13 @@ func sendRequest(o DialOpts, method string, chunked bool) (net.Conn, *bufio.Read
 		authz, rep, err := NTLMPrelude(c, br, o, method)
 		if err != nil || authz == "" {
 			c.Close()
+			if err == nil {
+				st := 0
+				if rep != nil {
+					st = rep.Status
+				}
+				err = fmt.Errorf("the NTLM negotiate message was answered with status %d and no challenge", st)
+			}
 			return nil, nil, rep, err
 		}
 		fmt.Fprintf(&sb, "Authorization: %s\r\n", authz)
